@@ -247,7 +247,7 @@ def parse_out(line):
 
 
 def gen_cases(rng, tier, chk):
-    n = 9000 if tier == "quick" else 400000
+    n = 9000 if tier == "quick" else 250000
     cases = []   # (variant, op, implargs, modelargs, frac, fclass, mclass)
     vs = sorted(VARIANTS)
     for i in range(n):
@@ -280,7 +280,7 @@ def gen_cases(rng, tier, chk):
                     ia = [f, m, k, fr, 0]
                     cases.append(("ratrecon.static", "ratrecon", ia, ia[:4], None, "exhaustive", "tiny"))
     # envelope enumeration: all a/b with b <= 64 inside the envelope for a set of moduli
-    nm = 40 if tier == "quick" else 400
+    nm = 40 if tier == "quick" else 250
     for j in range(nm):
         mclass, m = gen_modulus(rng)
         while isqrt(m) < 8:
